@@ -219,7 +219,7 @@ pub fn property(_tier: Tier) -> Property {
         parts: vec![Box::new(RandomPart {
             name: "picture_server",
             rule: "proptest: chunk limit 1-16384; embedded and cover source each one of present (size from {0,1,L-1,L,L+1,2L,2L+1,3L-1,max} or random up to min(40L, 64 KiB), arbitrary bytes optionally starting with protocol look-alikes, MIME type present/absent on readpicture) / absent (bare OK) / unknown command (ACK 5) / ACK with another code; one or two concurrent Client::album_art calls issued together with 0-3 other requests, notifications and timer advances; any segmentation. Result must be Some((bytes, mime)) / None / the server's error exactly as the statement prescribes; the simulated server's request log must show readpicture at 0, the fallback probe exactly when required, continuation on the command that yielded data at offsets equal to the bytes served so far, and max(1, ceil(size/L)) data requests; other callers' replies as in C01. non-trivial = size not a multiple of L with >=2 chunks, a fallback, or concurrent activity",
-            cases: (40_000, 1_000_000),
+            cases: (40_000, 5_000_000),
             strategy: Box::new(strategy),
             check: Box::new(check),
         })],
